@@ -3,16 +3,43 @@
 //! front of the value, so code that reaches them through a type-erased pointer is right for one and wrong for the other).
 pub mod plain {
     mod pdef {
+        pub const HAS_DROP: bool = true;
         pub struct P {
             pub alloc: usize,
             pub magic: u32,
+        }
+        impl Drop for P {
+            fn drop(&mut self) {
+                super::payload_dropped(self.alloc, self.magic);
+                self.magic = 0xDEAD;
+            }
         }
     }
     include!("arc_body.rs");
 }
 pub mod over {
     mod pdef {
+        pub const HAS_DROP: bool = true;
         #[repr(align(64))]
+        pub struct P {
+            pub alloc: usize,
+            pub magic: u32,
+        }
+        impl Drop for P {
+            fn drop(&mut self) {
+                super::payload_dropped(self.alloc, self.magic);
+                self.magic = 0xDEAD;
+            }
+        }
+    }
+    include!("arc_body.rs");
+}
+/// A payload WITHOUT drop glue (plain data): releasing the last reference still has to free the allocation and give the
+/// count back, although there is no destructor to run.  Destructor counts cannot be observed here; behaviours that create
+/// an allocation from a value (not retained by the environment, so only destructor counts could speak) are skipped.
+pub mod nodrop {
+    mod pdef {
+        pub const HAS_DROP: bool = false;
         pub struct P {
             pub alloc: usize,
             pub magic: u32,
